@@ -8,11 +8,35 @@ from .catalogue import BROADCAST_TARGET, CATALOGUE
 from .pipeline import format_choices
 
 
+SWEEP = [("a(i,j,k) = b(i,j,k)", ["d0d1d2", "s0s1s2", "d0s1s2"]), ("a(i,j) = b(i,j)", ["d0d1", "s0s1"]),
+         ("a(i,j) = b(i,j,k) * c(k)", ["d0d1d2", "s0s1s2"])]
+
+
+def target_sweep():
+    """EVERY format of the target (all modes x orderings) against a few natural input formats, for copy-like shapes:
+    output-side mechanisms (append cursors, growth, scratch space, final sizes) depend on the target format only."""
+    for text, in_formats in SWEEP:
+        asg = exprs.parse(text)
+        orders = exprs.tensor_orders(asg)
+        others = [n for n in orders if n != asg["target"]]
+        for tf in kernels.all_formats(orders[asg["target"]]):
+            for inf in in_formats:
+                fm = {asg["target"]: tf}
+                for n in others:
+                    fm[n] = inf if orders[n] == len([c for c in inf if c in "ds"]) else "".join(f"d{i}" for i in range(orders[n]))
+                yield text, fm
+
+
 def select(rng: random.Random, kinds: list[str], per_assignment: int, tries: int, cap, *, programs: list,
            optimize: bool = True, catalogue=None, want=None, budget: int = 20000):
     """Yield (Kernel, group) for catalogue assignments x seeded format assignments for which generation succeeds.
     `want(kernel)` may reject a kernel (e.g. C16 needs a sparse-only index)."""
     out = []
+    for text, fm in target_sweep():
+        probe = kernels.compile_kernel(text, fm, kinds, [], cap=cap, optimize=optimize)
+        if probe.error or (want is not None and not want(probe)):
+            continue
+        out.append((kernels.compile_kernel(text, fm, kinds, programs, cap=cap, optimize=optimize, budget=budget), "target-sweep"))
     for group, text in (catalogue if catalogue is not None else CATALOGUE + BROADCAST_TARGET):
         asg = exprs.parse(text)
         got = 0
